@@ -21,6 +21,7 @@ import Rpki.Proofs.BerMono
 import Rpki.Gen.BerLemmas
 import Rpki.Gen.BerLemmas2
 import Rpki.Gen.BerMonoGen
+import Rpki.Proofs.FuelFree
 namespace Rpki.Props.C04
 set_option autoImplicit false
 open Rpki.Der
@@ -303,6 +304,85 @@ theorem skip_machine_either_mode (ber : Bool) (b : Bytes) :
     (∀ k, CertDer.skipLoopM ber (b.length + 1 + k) b [] = CertDer.skipOneM ber b) :=
   ⟨fun rest h => CertDer.skipOne_suffixM ber b rest h, fun k => CertDer.skipOne_fuelM ber b k⟩
 
+/-! ### bounded work: what a reader hands on is smaller, and the model's loop counters never decide
+
+The implementation's loops carry no counter; they end because every value read is at least two octets long.  The
+model's loops carry one (Lean wants the recursion structural).  These theorems show, for either mode, that content and
+rest of every value read are together at least two octets shorter than the input — so the work of every loop is
+bounded by the length of the input — and that no counter ever runs out: any counter at or above the length gives
+the same result, so a refusal, a panic of an `unwrap()` (`none`) or a short list never comes from the counter. -/
+
+theorem readers_hand_on_less (ber : Bool) :
+    (∀ tag b c rest, takeOptConsM ber tag b = .ok c rest → c.length + rest.length + 2 ≤ b.length) ∧
+    (∀ tag b c rest, takeOptPrimM ber tag b = .ok c rest → c.length + rest.length + 2 ≤ b.length) ∧
+    (∀ b t c rest, readTlvM ber b = some (t, c, rest) → c.length + rest.length + 2 ≤ b.length) ∧
+    (∀ k cur c rest, CertDer.indefBodyM ber k cur = some (c, rest) → c.length + rest.length + 2 ≤ cur.length) ∧
+    (∀ k b v, octetLeavesM ber k b = some v → v.length ≤ b.length) :=
+  ⟨AsDer.takeOptConsM_size ber, AsDer.takeOptPrimM_size ber, AsDer.readTlvM_size ber,
+   AsDer.indefBodyM_size ber, AsDer.octetLeavesM_size ber⟩
+
+theorem content_loops_never_run_out (ber : Bool) :
+    (∀ {σ : Type} (tag : Nat) (f : σ → Bytes → Option σ) (b : Bytes) (s : σ) (k : Nat),
+      CertDer.foldConsM ber tag f (b.length + 1 + k) b s = CertDer.foldConsM ber tag f (b.length + 1) b s) ∧
+    (∀ {σ : Type} (tag : Nat) (f : σ → Bytes → Option σ) (b : Bytes) (s : σ) (k : Nat),
+      CertDer.foldPrimM ber tag f (b.length + 1 + k) b s = CertDer.foldPrimM ber tag f (b.length + 1) b s) ∧
+    (∀ (b : Bytes) (k : Nat), CertDer.skipAllM ber (b.length + k) b = CertDer.skipAllM ber b.length b) ∧
+    (∀ (b : Bytes) (k : Nat), CertDer.indefBodyM ber (b.length + 1 + k) b = CertDer.indefBodyM ber (b.length + 1) b) ∧
+    (∀ (b : Bytes) (k : Nat), octetLeavesM ber (b.length + k) b = octetLeavesM ber b.length b) :=
+  ⟨fun tag f b s k => CertDer.foldConsM_fuel_free ber tag f b s k,
+   fun tag f b s k => CertDer.foldPrimM_fuel_free ber tag f b s k,
+   fun b k => CertDer.skipAllM_fuel ber _ _ b (by omega) (by omega),
+   fun b k => CertDer.indefBodyM_fuel ber _ _ b (by omega) (by omega),
+   fun b k => CertDer.octetLeavesM_fuel ber _ _ b (by omega) (by omega)⟩
+
+/-- the loops over captured lists (manifest file list, CRL entries, ROA prefixes, ASPA providers, message CRL
+entries in either mode): counting pass and iteration alike -/
+theorem item_loops_never_run_out :
+    (∀ b n k, Manifest.countLoop (b.length + k) b n = Manifest.countLoop b.length b n) ∧
+    (∀ b k, Manifest.iterLoop (b.length + k) b = Manifest.iterLoop b.length b) ∧
+    (∀ b serial k, Crl.containsLoop (b.length + k) b serial = Crl.containsLoop b.length b serial) ∧
+    (∀ b n k check, capturePass Crl.takeOptEntry check (b.length + k) b n = capturePass Crl.takeOptEntry check b.length b n) ∧
+    (∀ b k, iteratePass Crl.takeOptEntry (b.length + k) b = iteratePass Crl.takeOptEntry b.length b) ∧
+    (∀ b n k check, capturePass Roa.takeOptAddr check (b.length + k) b n = capturePass Roa.takeOptAddr check b.length b n) ∧
+    (∀ b k, iteratePass Roa.takeOptAddr (b.length + k) b = iteratePass Roa.takeOptAddr b.length b) ∧
+    (∀ b k, iteratePass Roa.takeOptAsn (b.length + k) b = iteratePass Roa.takeOptAsn b.length b) ∧
+    (∀ ber b n k check, capturePass (SigMsgDer.takeOptMsgEntryM ber) check (b.length + k) b n =
+      capturePass (SigMsgDer.takeOptMsgEntryM ber) check b.length b n) ∧
+    (∀ ber b k, iteratePass (SigMsgDer.takeOptMsgEntryM ber) (b.length + k) b =
+      iteratePass (SigMsgDer.takeOptMsgEntryM ber) b.length b) :=
+  ⟨fun b n k => FuelFree.countLoop_fuel _ _ b n (by omega) (by omega),
+   fun b k => FuelFree.iterLoop_fuel _ _ b (by omega) (by omega),
+   fun b serial k => FuelFree.containsLoop_fuel serial _ _ b (by omega) (by omega),
+   fun b n k check => capturePass_fuel _ check FuelFree.crlEntry_shrinks _ _ b n (by omega) (by omega),
+   fun b k => iteratePass_fuel _ FuelFree.crlEntry_shrinks _ _ b (by omega) (by omega),
+   fun b n k check => capturePass_fuel _ check FuelFree.roaAddr_shrinks _ _ b n (by omega) (by omega),
+   fun b k => iteratePass_fuel _ FuelFree.roaAddr_shrinks _ _ b (by omega) (by omega),
+   fun b k => iteratePass_fuel _ FuelFree.aspaAsn_shrinks _ _ b (by omega) (by omega),
+   fun ber b n k check => capturePass_fuel _ check (FuelFree.msgEntry_shrinks ber) _ _ b n (by omega) (by omega),
+   fun ber b k => iteratePass_fuel _ (FuelFree.msgEntry_shrinks ber) _ _ b (by omega) (by omega)⟩
+
+/-- … and the remaining loops: the RFC 3779 block lists, the ASPA provider check, the ROA address families, the
+signed attributes (either mode), the comment and URI lines of a TAL -/
+theorem remaining_loops_never_run_out :
+    (∀ b k, AsDer.blocksLoop (b.length + k) b = AsDer.blocksLoop b.length b) ∧
+    (∀ W b k, IpDer.blocksLoop W (b.length + k) b = IpDer.blocksLoop W b.length b) ∧
+    (∀ maxLen customer b last n k, Roa.provLoop maxLen customer (b.length + k) b last n = Roa.provLoop maxLen customer b.length b last n) ∧
+    (∀ b v4 v6 k, Roa.famLoop (b.length + k) b v4 v6 = Roa.famLoop b.length b v4 v6) ∧
+    (∀ ber strict b p k, SigObj.parseLoopM ber strict (b.length + k) b p = SigObj.parseLoopM ber strict b.length b p) ∧
+    (∀ b k, Tal.skipComments (b.length + k) b = Tal.skipComments b.length b) ∧
+    (∀ b acc k, Tal.takeUris (b.length + 1 + k) b acc = Tal.takeUris (b.length + 1) b acc) :=
+  ⟨fun b k => FuelFree.asBlocksLoop_fuel _ _ b (by omega) (by omega),
+   fun W b k => FuelFree.ipBlocksLoop_fuel W _ _ b (by omega) (by omega),
+   fun maxLen customer b last n k => FuelFree.provLoop_fuel maxLen customer _ _ b last n (by omega) (by omega),
+   fun b v4 v6 k => FuelFree.famLoop_fuel _ _ b v4 v6 (by omega) (by omega),
+   fun ber strict b p k => FuelFree.parseLoopM_fuel ber strict _ _ b p (by omega) (by omega),
+   fun b k => FuelFree.skipComments_fuel _ _ b (by omega) (by omega),
+   fun b acc k => FuelFree.takeUris_fuel _ _ b acc (by omega) (by omega)⟩
+
+/-- a TAL line and what follows it are together one octet (the line feed) shorter than the text -/
+theorem tal_lines_shrink (b l r : Bytes) (h : Tal.splitLine b = some (l, r)) : l.length + r.length + 1 = b.length :=
+  FuelFree.splitLine_size b l r h
+
 /-- **Relaxed mode extends strict mode.** Every octet string a strict decoder accepts is accepted by the relaxed
 decoder with the same result — certificates, signed objects (also with the typed content check), identity
 certificates, signed messages, and the walk over a message CRL's revocation list.  48 generated lemmas
@@ -386,6 +466,38 @@ theorem typed_objects_accessors_either_mode (ber : Bool) (b : Bytes) (o : CmsDer
           obtain ⟨ps, hp, hl, _⟩ := C05.aspa_decoded_iterates _ _ a hm
           exact ⟨a, ps, rfl, hp, hl⟩
       · cases h
+
+/-- **What the library writes is read back in either mode.**  The round trips of C05 are stated for the strict
+decoders; with `strict_is_the_der_instance` and `relaxed_extends_strict` they hold for `strict = false` as well: a
+signed object around a written certificate, and a signed protocol message with its identity certificate and CRL,
+decode to the same values whichever mode the reader asks for. -/
+theorem written_objects_read_back_in_either_mode (ber : Bool) :
+    (∀ (ct content sid attrs md sig csig : Bytes) (st : X509.Civil) (d : CertDer.Decoded),
+      CertEnc.WF d → CertDer.Forest d.issuer → CertDer.Forest d.subject → CertDer.oidOk ct = true → sid.length = 20 →
+      SigObj.parseAttrs true attrs = some (ct, md, st) →
+      CmsDer.decodeSigObjM ber (CmsEnc.encodeSigObj ct content (CertEnc.encodeCert d csig) sid attrs sig) =
+        some { contentType := ct, content := content, cert := CertEnc.readBack d true csig, sid := sid, attrs := attrs,
+               messageDigest := md, signingTime := st, signature := sig }) ∧
+    (∀ (content sid attrs md sig csig lsig : Bytes) (st : X509.Civil)
+      (c : SigMsgDer.IdCertD) (l : SigMsgDer.MsgCrlD) (rest : Bytes),
+      IdEnc.WF c → CertDer.Forest c.issuer → CertDer.Forest c.subject →
+      SigMsgEnc.WFCrl l → CertDer.Forest l.issuer → sid.length = 20 →
+      SigObj.parseAttrs false attrs = some (Consts.oidProtocolContentType, md, st) →
+      SigMsgDer.decodeSigMsgM ber (SigMsgEnc.encodeSigMsg content (IdEnc.encodeIdCert c csig) (SigMsgEnc.encodeMsgCrl l lsig) sid attrs sig ++ rest) =
+        some { content := content, cert := IdEnc.readBack c (IdEnc.encodeTbsId c) csig,
+               crl := { l with innerParam := true, outerParam := true, tbs := SigMsgEnc.encodeTbsMsgCrl l, signature := lsig },
+               sid := sid, attrs := attrs, messageDigest := md, signature := sig }) := by
+  refine ⟨?_, ?_⟩
+  · intro ct content sid attrs md sig csig st d h hi hs hct hsid hp
+    have := C05.sigobj_with_cert_roundtrip ct content sid attrs md sig csig st d h hi hs hct hsid hp
+    cases ber with
+    | false => rw [CmsDer.decodeSigObjM_false]; exact this
+    | true => exact relaxed_extends_strict.2.1 _ _ this
+  · intro content sid attrs md sig csig lsig st c l rest hc hci hcs hl hli hsid hp
+    have := C05.sigmsg_roundtrip content sid attrs md sig csig lsig st c hc hci hcs l hl hli hsid hp rest
+    cases ber with
+    | false => rw [SigMsgDer.decodeSigMsgM_false]; exact this
+    | true => exact relaxed_extends_strict.2.2.2.2.1 _ _ this
 
 /-! the extension is proper: an indefinite-length SEQUENCE holding a NULL, an over-long length, a constructed OCTET
 STRING in two segments and the truth value 0x01 are read in BER mode and refused in DER mode -/
